@@ -22,15 +22,24 @@ func RegLan(src string) (string, error) {
 	if re.Op == syntax.OpConcat {
 		subs = re.Sub
 	}
-	if len(subs) < 2 {
-		return "", fmt.Errorf("regex is not of the form ^...$: %s", src)
+	if len(subs) < 1 {
+		return "", fmt.Errorf("empty regex: %s", src)
 	}
 	first, last := subs[0].Op, subs[len(subs)-1].Op
-	if (first != syntax.OpBeginText && first != syntax.OpBeginLine) || (last != syntax.OpEndText && last != syntax.OpEndLine) {
-		return "", fmt.Errorf("regex is not of the form ^...$: %s", src)
-	}
 	var parts []string
 	all := `(re.* (re.range "\u{0}" "\u{7f}"))`
+	// a pattern without a leading / trailing anchor matches anywhere: the recognised language gets a free prefix / suffix
+	if first != syntax.OpBeginText && first != syntax.OpBeginLine {
+		subs = append([]*syntax.Regexp{{Op: syntax.OpBeginText}}, subs...)
+		parts = append(parts, all)
+		first = syntax.OpBeginText
+	}
+	freeSuffix := false
+	if last != syntax.OpEndText && last != syntax.OpEndLine {
+		subs = append(append([]*syntax.Regexp{}, subs...), &syntax.Regexp{Op: syntax.OpEndText})
+		freeSuffix = true
+		last = syntax.OpEndText
+	}
 	if first == syntax.OpBeginLine {
 		// (?m)^ : start of text or just after a newline
 		parts = append(parts, `(re.opt (re.++ `+all+` (str.to_re "\u{a}")))`)
@@ -56,6 +65,9 @@ func RegLan(src string) (string, error) {
 	}
 	if last == syntax.OpEndLine {
 		segs[len(segs)-1].parts = append(segs[len(segs)-1].parts, `(re.opt (re.++ (str.to_re "\u{a}") `+all+`))`)
+	}
+	if freeSuffix {
+		segs[len(segs)-1].parts = append(segs[len(segs)-1].parts, all)
 	}
 	word := `(re.union (re.range "0" "9") (re.range "A" "Z") (re.range "a" "z") (str.to_re "_"))`
 	nonword := `(re.diff (re.range "\u{0}" "\u{7f}") ` + word + `)`
